@@ -65,6 +65,31 @@ def check_C14(ctx, deep=False):
         elif a != 0:
             ctx.sample({"op": r["op"][:120], "evals": r["I"]})
     ctx.stats["max_abs_eval_seen"] = mx
+    # positions as the engine itself builds them (generated successors; null-move twins): the value
+    # must not depend on how the board value was produced or on what was evaluated before
+    wops = []
+    for o in C.genops("walk", ctx.seed + 1, 40 if ctx.quick else 1500, 50, 0):
+        if o.split(" ")[0] in ("fen", "pick"):
+            wops += [o, "evalflip"]
+    wres = C.run_ops(wops)
+    for i, r in enumerate(wres):
+        if r["M"] != r["I"]:
+            ctx.t2diff(r)
+        if r["op"] != "evalflip":
+            continue
+        ctx.traces += 1
+        v = r["I"].split(" ")
+        if len(v) != 2:
+            ctx.fail("eval-unavailable", op=r["op"], impl=r["I"])
+            continue
+        a, b = int(v[0]), int(v[1])
+        ctx.case(("flip", i, a), a != 0)
+        if b != -a:
+            j = i
+            while j > 0 and not wres[j]["op"].startswith("fen "):
+                j -= 1
+            ctx.fail("side-flip-of-an-in-memory-board", ops=[x["op"] for x in wres[j:i + 1] if x["op"] != "evalflip"] + ["evalflip"],
+                     position=a, other_side=b)
 
 
 # =====================================================================================
@@ -601,6 +626,9 @@ def check_info_lines(ctx, infos, legal_moves, k, where):
             ctx.fail("info-depth", line=line, previous_depth=last_depth, where=where)
         if kind == "mate" and val == 0:
             ctx.fail("info-mate-zero", line=line, where=where)
+        if kind == "mate" and abs(val) > k["window"] // 2 + 1:
+            # mate scores are only printed within `mate_window` plies of the mate score
+            ctx.fail("info-mate-distance-out-of-range", line=line, where=where)
         if kind == "cp" and (abs(val) >= k["inf"] or abs(val) > k["mate"]):
             ctx.fail("info-score-out-of-range", line=line, where=where)
         if legal_moves is not None and pv[0] not in legal_moves:
@@ -1101,6 +1129,16 @@ def check_C03(ctx, deep=False):
                     break
                 elif legal is not None:
                     ctx.sample({"pos": pl[:100], "gos": gos, "answer": mv})
+    # the text printed for every board the engine can hand back after its own previous answer:
+    # exhaustive special two-ply chains (promotion then castling etc.), bestmove text = the move
+    from props import oracle_fmt
+    pres = C.run_ops(C.genops("pairs", 0, 1))
+    attach_context(pres)
+    for r in pres:
+        if r["M"] != r["I"]:
+            ctx.t2diff(r)
+        oracle_fmt(ctx, r)
+        oracle_state(ctx, r)       # a legal move that cannot be picked by its own text is mis-described
     # in-process part
     sops = search_positions(ctx, 10 if q else 60, 30, "sweep 60 3", with_rep=False)
     sres = C.run_ops(sops)
@@ -1133,8 +1171,10 @@ def check_C08(ctx, deep=False):
     n = (24 if q else 400) * (2 if deep else 1)
     poslines = [o[4:] for o in C.genops("search", ctx.seed, n, 60) if o.startswith("pos ")]
     plans = []
-    for p in TERMINAL * (1 if q else 4):
-        plans.append((p, rnd.choice([1, 40, 150, 700, 2000]), rnd.choice([None, 1, 5, 30]), True))
+    # terminal positions x every clock class (no usable clock => zero slice, tiny, normal)
+    for p in TERMINAL:
+        for clock in ([0, 60, 100, 101, 700] if q else [0, 1, 60, 100, 101, 150, 700, 2000]):
+            plans.append((p, clock, rnd.choice([None, 1, 5, 30]), True))
     for p in poslines:
         plans.append((p, rnd.choice([1, 40, 150, 700, 1600, 3100]), rnd.choice([None, 1, 2, 30]), False))
 
@@ -1148,7 +1188,7 @@ def check_C08(ctx, deep=False):
                 if not S.handshake(e):
                     return plan, ("no-handshake", None)
                 e.send(pos)
-                go = "go wtime %d btime %d" % (clock, clock) + (" movestogo %d" % mtg if mtg else "")
+                go = ("go wtime %d btime %d" % (clock, clock) if clock else "go") + (" movestogo %d" % mtg if mtg else "")
                 r = S.go_and_wait(e, go, planned / 1000.0 + 6)
                 if not r["answered"]:
                     return plan, ("unanswered", None)
@@ -1219,6 +1259,14 @@ def check_C16(ctx, deep=False):
     probes = ["position startpos", "position startpos moves g1f3"] + probes
     rnd = random.Random(ctx.seed)
     plans = [(p, rnd.choice(TRAFFIC), rnd.choice([0, 0, 1])) for p in probes]
+    plans.append(("position startpos", TRAFFIC[1], 1))
+    # probes WITHOUT a move list after a game over the same squares that repeated positions: a
+    # repetition record that survives the new `position` shows as draw scores in the probe's search
+    for o in C.genops("rep", ctx.seed + 5, 6 if q else 80, 12, 4):
+        if o.startswith("pos position fen ") and " moves " in o:
+            full = o[4:]
+            bare = full.split(" moves ")[0]
+            plans.append((bare, [full, "go wtime 150 btime 150", "ucinewgame", "isready"], 1))
 
     def probe(e, pos, timed, clock):
         e.send(pos)
@@ -1283,4 +1331,7 @@ def check_C16(ctx, deep=False):
             hits.append("%s: %s" % (fn, m.group(0)))
     ctx.stats["global_state_audit_hits"] = hits
     if hits:
-        ctx.fail("process-global-mutable-state", hits=hits)
+        # not a failing input by itself: the argument "only board and table survive between commands"
+        # is no longer shown (T3); reported as a broken tie, the session pairs above do the searching
+        ctx.t2.append({"op": "<T3 global state audit>", "impl": "; ".join(hits), "model": "no process-global mutable state"})
+        ctx.count("t2_diffs")
